@@ -70,3 +70,23 @@ func Harness_C09_q_chunked_writer() {
 	}
 	verif.Reach("end")
 }
+
+// Every payload length 0..6200 (beyond three chunks) with a healthy underlying writer: the
+// chunks are maximal, at most 2048 bytes, and concatenate to p; everything is counted.
+func Harness_C09_q_chunked_every_length() {
+	n := verif.Choice("len", 6201)
+	p := verif.Bytes("p", n)
+	under := &ccWriter{failAt: -1}
+	got, err := NewChunkedWriter(under, 2048).Write(append([]byte{}, p...))
+	var all []byte
+	for i, c := range under.chunks {
+		verif.Assert(len(c) <= 2048 && len(c) > 0, "chunk-at-most-2048")
+		if i < len(under.chunks)-1 {
+			verif.Assert(len(c) == 2048, "chunks-are-maximal")
+		}
+		all = append(all, c...)
+	}
+	verif.Assert(err == nil && got == n && verif.Eq(all, p), "everything-written-and-counted")
+	verif.Assert(len(under.chunks) == (n+2047)/2048, "number-of-chunks")
+	verif.Reach("end")
+}
